@@ -14,14 +14,22 @@
   changes cluster values decides which boundary the old flags now speak about.  `delete_glyph` in a descending buffer hands the
   deleted glyph's flags to the run that takes over its cluster value (the boundary at the start of c is still there);
   every other path (`merge_clusters`, `merge_out_clusters`, the forward merge of `delete_glyph`) clears the flags of a renamed
-  glyph and leaves every other glyph alone, as HarfBuzz does.  `delete_glyphs_inplace` repeats the same branches in place; its
-  contract is checked by the `flags-carry` correspondence and the `carry-exact` oracle only (tools/props/C03.py).
+  glyph and leaves every other glyph alone, as HarfBuzz does.  `delete_glyphs_inplace` repeats the same branches in place:
+  its "Merge cluster backward" iteration is `C03_delin_backward_carries_flags` (the run that takes over the deleted glyph's
+  cluster value carries the DELETED glyph's flags); its other branches are checked by the `flags-carry` correspondence and the
+  `carry-exact` oracle (tools/props/C03.py).
+
+  Third part (`C03_stch_span`, `C03_stch_flag_call`, `C03_stch_flags`): the one shaper routine whose flag contract is modelled
+  here, the Arabic shaper's `stch` post-processing (Stch.lean, tied to the crate by the `stch-prims` stream): the span it flags
+  is the stretching mark's tiles plus the whole word whose advances decide the tiling, and every glyph of that span outside the
+  mark's cluster ends up UNSAFE_TO_BREAK.
 
   `Upd l l' p q test upd`: `l'` is `l` with `upd` applied to exactly the entries `p ≤ j < q` that pass `test`
   (same length, everything else untouched).  `neCl m x` = "cluster of x differs from m", `orMask f x` = `x.mask |= f`.
 -/
 import RbModel.Lemmas.Flags
 import RbModel.Lemmas.FlagCarry
+import RbModel.Lemmas.Stch
 
 namespace RbModel.Flags
 
@@ -170,6 +178,120 @@ theorem C03_propagate (b : Buf) (hlen : b.len ≤ b.info.length) (hsc : b.scratc
 example : ∃ b : Buf, b.len ≤ b.info.length ∧ b.scratch &&& SCRATCH_HAS_GLYPH_FLAGS ≠ 0 :=
   ⟨{ info := [{ mask := 3 }, {}], len := 2, scratch := 0x20 }, by decide, by decide⟩
 
+/-! ### the Arabic shaper's `stch` post-processing (apply_stch, model Stch.lean) -/
+
+open RbModel.Stch in
+/-- **which span apply_stch flags.**  When the part of the buffer still to be processed ends in a tile, the routine looks at
+    `[tileStart, length)` = the maximal run of tiles at its end and `[wordStart, tileStart)` = the maximal run, in front of the
+    tiles, of glyphs that are no tiles and are default ignorable or of a word category (in a right-to-left buffer: the
+    characters that follow the stretching mark in the text).  The advances of exactly these word glyphs decide how many copies
+    of the repeating tiles are made (`cut`), so they are what the tiles depend on. -/
+theorem C03_stch_span (l : List G) (last : G) (hl : l.getLast? = some last) (hs : last.isStch = true) :
+    wordStart l ≤ tileStart l ∧ tileStart l < l.length ∧
+    (∀ q g, tileStart l ≤ q → l[q]? = some g → g.isStch = true) ∧
+    (tileStart l = 0 ∨ ∃ g, l[tileStart l - 1]? = some g ∧ g.isStch = false) ∧
+    (∀ q g, wordStart l ≤ q → q < tileStart l → l[q]? = some g → g.isWord = true) ∧
+    (wordStart l = 0 ∨ ∃ g, l[wordStart l - 1]? = some g ∧ g.isWord = false) :=
+  span_spec l last hl hs
+
+open RbModel.Stch in
+/-- **the flag call of apply_stch** (`buffer.unsafe_to_break(Some(context), Some(end))` on clusters monotone over the span, as
+    they are after shaping): no panic; with `m` the minimum cluster of `[s, length)` — the stretching mark's own cluster — every
+    glyph of the span whose cluster differs from `m` gets `mask |= UNSAFE_TO_BREAK | UNSAFE_TO_CONCAT`, every other glyph and
+    every other field is untouched.  All three cluster levels, every length, every mask content. -/
+theorem C03_stch_flag_call (level : Nat) (l : List G) (s : Nat) (hs : s < l.length)
+    (hu32 : ∀ q g, s ≤ q → l[q]? = some g → g.cluster ≤ U32MAX)
+    (hmono : MonoRange (l.map G.toInfo) s l.length) :
+    ∃ l' m, flagRange level l s l.length = .ok l' ∧ IsRangeMin (l.map G.toInfo) s l.length m ∧ l'.length = l.length ∧
+      ∀ q g, l[q]? = some g →
+        l'[q]? = some (if s ≤ q ∧ g.cluster ≠ m then { g with mask := g.mask ||| (Flag.UNSAFE_TO_BREAK ||| Flag.UNSAFE_TO_CONCAT) }
+                       else g) := by
+  have hu : ∀ j x, s ≤ j → j < l.length → (l.map G.toInfo)[j]? = some x → x.cluster ≤ U32MAX := by
+    intro j x h1 _ hx
+    rw [List.getElem?_map] at hx
+    cases hg : l[j]? with
+    | none => simp [hg] at hx
+    | some g =>
+      simp only [hg, Option.map_some, Option.some.injEq] at hx
+      subst hx
+      exact hu32 j g h1 hg
+  obtain ⟨b', m, hr, hmin, hupd, _⟩ :=
+    C03_interior ({ info := l.map G.toInfo, len := l.length, level := level } : Buf) s l.length hs (Nat.le_refl _)
+      (by simp) hu hmono
+  have hlen' : b'.info.length = l.length := by rw [hupd.1]; simp
+  refine ⟨List.zipWith (fun g x => { g with mask := x.mask }) l b'.info, m, ?_, hmin, ?_, ?_⟩
+  · simp only [flagRange, hr]; rfl
+  · simp [hlen']
+  · intro q g hg
+    have hql : q < l.length := (List.getElem?_eq_some_iff.mp hg).1
+    have h2 := hupd.2 q
+    simp only [List.getElem?_map, hg, Option.map_some] at h2
+    rw [List.getElem?_zipWith, hg, h2]
+    by_cases hc : s ≤ q ∧ g.cluster ≠ m
+    · have : s ≤ q ∧ q < l.length ∧ neCl m g.toInfo = true := ⟨hc.1, hql, by simpa [neCl, G.toInfo] using hc.2⟩
+      rw [if_pos this, if_pos hc]
+      rfl
+    · have : ¬ (s ≤ q ∧ q < l.length ∧ neCl m g.toInfo = true) := by
+        intro h; exact hc ⟨h.1, by simpa [neCl, G.toInfo] using h.2.2⟩
+      rw [if_neg this, if_neg hc]
+      rfl
+
+open RbModel.Stch in
+/-- **apply_stch flags everything the tiles depend on.**  One iteration of the CUT pass on a buffer part `l` that ends in a tile,
+    clusters monotone over the span `[wordStart l, length)` (every direction, every cluster level, every mask content, any
+    advances): no panic in the flag call; the pass continues on the flagged array `l'` — the tiles that are copied out are those
+    of `l'`, and the word glyphs, still to be copied, are those of `l'` — and in `l'` EVERY glyph of the word and of the tile run
+    whose cluster differs from the span's minimum cluster `m` (the stretching mark's own cluster) carries
+    UNSAFE_TO_BREAK | UNSAFE_TO_CONCAT; nothing else changed.  So every cluster boundary between the mark and the end of its
+    word — the glyphs whose advances decide the number and the offsets of the tiles — is flagged unsafe to break. -/
+theorem C03_stch_flags (rtl : Bool) (level fuel : Nat) (l : List G) (last : G) (hl : l.getLast? = some last)
+    (hs : last.isStch = true)
+    (hu32 : ∀ q g, wordStart l ≤ q → l[q]? = some g → g.cluster ≤ U32MAX)
+    (hmono : MonoRange (l.map G.toInfo) (wordStart l) l.length) :
+    ∃ (l' : List G) (m : Nat) (n o w : Int),
+      cut rtl level (fuel + 1) l =
+        (cut rtl level fuel (l'.take (tileStart l)) >>= fun rest =>
+          pure (rest ++ (emit rtl n o (l'.drop (tileStart l)).reverse w).reverse)) ∧
+      l'.length = l.length ∧ IsRangeMin (l.map G.toInfo) (wordStart l) l.length m ∧
+      ∀ q g, l[q]? = some g →
+        l'[q]? = some (if wordStart l ≤ q ∧ g.cluster ≠ m
+                       then { g with mask := g.mask ||| (Flag.UNSAFE_TO_BREAK ||| Flag.UNSAFE_TO_CONCAT) } else g) := by
+  obtain ⟨hw, ht, _⟩ := span_spec l last hl hs
+  obtain ⟨l', m, hr, hmin, hlen, hpt⟩ := C03_stch_flag_call level l (wordStart l) (by omega) hu32 hmono
+  have hns : (!last.isStch) = false := by simp [hs]
+  rcases hfit : fit (sumBy (·.adv) ((l.take (tileStart l)).drop (wordStart l)))
+      (sumBy (·.width) ((l.drop (tileStart l)).filter (·.act == 1)))
+      (sumBy (·.width) ((l.drop (tileStart l)).filter (·.act != 1)))
+      (((l.drop (tileStart l)).filter (·.act != 1)).length : Int) with ⟨n, o, w⟩
+  refine ⟨l', m, n, o, w.tdiv 2, ?_, hlen, hmin, hpt⟩
+  simp only [cut, hl, hns, Bool.false_eq_true, if_false, hfit, hr]
+  rfl
+
+example : ∃ (l : List Stch.G) (last : Stch.G), l.getLast? = some last ∧ last.isStch = true ∧
+    (∀ q g, Stch.wordStart l ≤ q → l[q]? = some g → g.cluster ≤ U32MAX) ∧
+    MonoRange (l.map Stch.G.toInfo) (Stch.wordStart l) l.length := by
+  refine ⟨[{ gid := 1, cluster := 1, word := true, adv := 500 }, { gid := 2, act := 1, width := 100 }],
+          { gid := 2, act := 1, width := 100 }, rfl, rfl, ?_, Or.inr ?_⟩
+  · intro q g _ hg
+    have hq : q = 0 ∨ q = 1 := by
+      have := (List.getElem?_eq_some_iff.mp hg).1; simp at this; omega
+    rcases hq with h | h <;> subst h <;> simp at hg <;> subst hg <;> decide
+  · intro i j x y _ hij hj hx hy
+    have hj' : j < 2 := by simpa using hj
+    have : (i = 0 ∧ j = 0) ∨ (i = 0 ∧ j = 1) ∨ (i = 1 ∧ j = 1) := by omega
+    rcases this with ⟨h1, h2⟩ | ⟨h1, h2⟩ | ⟨h1, h2⟩ <;> subst h1 <;> subst h2 <;> simp at hx hy <;> subst hx <;> subst hy <;> decide
+
+/-- the whole routine on a closed instance, as the crate answers the same request (`stch` stream): right-to-left buffer
+    <word glyph (cluster 1, advance 500)> <fixed 100> <repeating 60> <fixed 80> (cluster 0): the word glyph gets
+    UNSAFE_TO_BREAK | UNSAFE_TO_CONCAT, the repeating tile is written 6 times with overlap 8 -/
+theorem C03_stch_witness :
+    (Stch.applyStch true 0
+      [{ gid := 1, cluster := 1, word := true, adv := 500, width := 500 }, { gid := 2, act := 1, width := 100 },
+       { gid := 3, act := 2, width := 60 }, { gid := 4, act := 1, width := 80 }]).map
+      (fun r => r.map (fun g => (g.gid, g.cluster, g.mask, g.adv, g.xoff)))
+      = .ok [(1, 1, 3, 500, 0), (2, 0, 0, 0, -500), (3, 0, 0, 0, -400), (3, 0, 0, 0, -348), (3, 0, 0, 0, -296),
+             (3, 0, 0, 0, -244), (3, 0, 0, 0, -192), (3, 0, 0, 0, -140), (4, 0, 0, 0, -80)] := by rfl
+
 /-! ### renamed glyphs: who carries the flags afterwards -/
 
 /-- **set_cluster(info, cluster, mask)**: a glyph whose cluster value does not change keeps its whole mask; a glyph that is
@@ -271,6 +393,52 @@ theorem C03_delete_backward_witness :
         len := 3, idx := 1, outLen := 1, haveOutput := true } : Buf).deleteGlyph).map
       (fun b => (b.info.map (fun x => (x.cluster, exposed x)), b.idx, b.outLen))
       = .ok ([(1, 3), (1, 3), (0, 0)], 2, 1) := by rfl
+
+/-- **delete_glyphs_inplace, "Merge cluster backward"** (what `hide_default_ignorables` runs after positioning, i.e. after the
+    final reversal of a right-to-left run: clusters descend).  One iteration of its loop, read head `i`, write head `j`
+    (`[0, j)` = the glyphs kept so far): the glyph `x = info[i]` is to be deleted (`var2 = 1` is the filter of the model), is
+    alone in its cluster (the next glyph has another cluster value) and the last kept glyph `p = info[j-1]` has a LARGER cluster
+    value.  Then the iteration does not panic and continues with read head `i + 1`, the SAME write head and an `info` array in
+    which the maximal run `[k, j)` of kept glyphs with `p`'s cluster value is renamed to `x`'s cluster, keeps its non-flag mask
+    bits and carries EXACTLY the glyph flags of the deleted glyph `x` — not those of `p`, not none; every other entry is
+    untouched.  For every buffer, every position, every level, every mask content. -/
+theorem C03_delin_backward_carries_flags (b : Buf) (i j fuel : Nat) (x p : Info) (hi : i < b.len)
+    (hlen : b.len ≤ b.info.length) (hji : j ≤ i) (hj : j ≠ 0)
+    (hx : b.info[i]? = some x) (hdel : x.var2 = 1) (hp : b.info[j - 1]? = some p)
+    (hnext : ∀ nx, i + 1 < b.len → b.info[i + 1]? = some nx → nx.cluster ≠ x.cluster)
+    (hlt : x.cluster < p.cluster) :
+    ∃ info k, Buf.deleteGlyphsInplace.loop b i j (fuel + 1) = Buf.deleteGlyphsInplace.loop { b with info := info } (i + 1) j fuel ∧
+      k < j ∧ info.length = b.info.length ∧
+      (∀ q, k ≤ q → q < j → ∃ y, b.info[q]? = some y ∧ y.cluster = p.cluster ∧
+          info[q]? = some { y with cluster := x.cluster,
+                                   mask := (y.mask &&& (U32MAX - Flag.DEFINED)) ||| (x.mask &&& Flag.DEFINED) }) ∧
+      (∀ q, ¬ (k ≤ q ∧ q < j) → info[q]? = b.info[q]?) ∧
+      (k = 0 ∨ Buf.cl? b.info (k - 1) ≠ some p.cluster) ∧
+      (∀ q y', k ≤ q → q < j → info[q]? = some y' → y'.cluster = x.cluster ∧ exposed y' = exposed x) :=
+  Buf.delin_backward_carries b i j fuel x p hi hlen hji hj hx hdel hp hnext hlt
+
+example : ∃ (b : Buf) (i j : Nat) (x p : Info), i < b.len ∧ b.len ≤ b.info.length ∧ j ≤ i ∧ j ≠ 0 ∧ b.info[i]? = some x ∧
+    x.var2 = 1 ∧ b.info[j - 1]? = some p ∧
+    (∀ nx, i + 1 < b.len → b.info[i + 1]? = some nx → nx.cluster ≠ x.cluster) ∧ x.cluster < p.cluster := by
+  refine ⟨{ info := [{ gid := 3, cluster := 3 }, { gid := 2, cluster := 2 }, { gid := 0, cluster := 1, mask := 2, var2 := 1 },
+                     { gid := 1, cluster := 0, mask := 2 }], len := 4 }, 2, 2,
+          { gid := 0, cluster := 1, mask := 2, var2 := 1 }, { gid := 2, cluster := 2 }, by decide, by decide, by decide, by decide,
+          rfl, rfl, rfl, ?_, by decide⟩
+  intro nx _ h
+  simp at h
+  subst h
+  decide
+
+/-- the seeded situation as a closed instance of the whole routine: Hebrew ALEF ZWNJ BET LAMED, right to left, the buffer after
+    the final reversal is LAMED(3) BET(2) ZWNJ(1) ALEF(0); a ligature attempt ALEF + LAMED failed AT the ZWNJ, so ALEF and ZWNJ
+    carry UNSAFE_TO_CONCAT; the font has no space glyph and the ZWNJ is deleted: BET takes over cluster 1 AND the ZWNJ's flag
+    (reading the mask of the kept glyph instead would leave BET = 1 without the flag) -/
+theorem C03_delin_backward_witness :
+    (({ info := [{ gid := 3, cluster := 3 }, { gid := 2, cluster := 2 }, { gid := 0, cluster := 1, mask := 2, var2 := 1 },
+                 { gid := 1, cluster := 0, mask := 2 }],
+        out := [{}, {}, {}, {}], len := 4 } : Buf).deleteGlyphsInplace).map
+      (fun b => ((b.info.take b.len).map (fun x => (x.gid, x.cluster, exposed x)), b.len))
+      = .ok ([(3, 3, 0), (2, 1, 2), (1, 0, 2)], 3) := by rfl
 
 /-- **delete_glyph, every other case with a non-empty out-buffer or a surviving cluster**: when the next glyph or the last
     out-buffer glyph shares the deleted glyph's cluster value ("Cluster survives") or the last out-buffer glyph has a SMALLER
